@@ -105,7 +105,34 @@ pub fn content_oracle(prop: &str, spec: &RunSpec, out: &Outcome) -> Vec<Violatio
             }
             (None, Some(disk_text)) => {
                 let want = only_marker(disk_text, *d);
-                let dirty = out.dirty_closed[*d].as_deref().and_then(|t| only_marker(t, *d));
+                // The ordinary didClose path keeps the editor text of a dirty document; a reload
+                // re-reads every closed file from disk. The discarded editor text is therefore
+                // tolerated unless a reload certainly *started after the close was handled*: a
+                // watcher event for .emmyrc.json sent after the didClose (FIFO main loop: the close
+                // is handled first; the event always schedules a reload, which runs to completion
+                // within the settle period). A didChangeConfiguration only reloads when the
+                // client's answer changed, and a reload that was already running when the close
+                // arrived may legitimately finish before the close is handled - neither is a
+                // sound reason to demand the disk content.
+                let reload_after_close = out.close_seq[*d].map(|cs| {
+                    out.history.iter().enumerate().any(|(i, e)| {
+                        i > cs
+                            && i < out.probe_start_seq
+                            && matches!(e.dir, crate::run::Dir::C2S)
+                            && matches!(&e.msg, lsp_server::Message::Notification(n)
+                                if n.method == "workspace/didChangeWatchedFiles"
+                                    && n.params.get("changes").and_then(|c| c.as_array()).map(|a| a.iter().any(|c| {
+                                        c.get("uri").and_then(|u| u.as_str()).map(|u| u.ends_with("/.emmyrc.json")).unwrap_or(false)
+                                            && c.get("type").and_then(|t| t.as_u64()) != Some(3)
+                                    })).unwrap_or(false))
+                    })
+                });
+                let reconciled = out.close_reconciled_by_reload.get(*d).copied().unwrap_or(false);
+                let dirty = if reload_after_close == Some(true) || reconciled {
+                    None
+                } else {
+                    out.dirty_closed[*d].as_deref().and_then(|t| only_marker(t, *d))
+                };
                 match &p {
                     Probe::Present(ms) => {
                         let got: Vec<u32> = ms.iter().filter(|(dd, _)| dd == d).map(|(_, n)| *n).collect();
